@@ -2252,6 +2252,16 @@ impl<'a> CompilerState<'a> {
                                 _ => unreachable!(),
                             }
                         }
+                        // (a parameter may be declared again, by the definition that follows a
+                        // prototype, but it may not take the place of a global of that name)
+                        if let Some(v) = self.variables.get(&longname) {
+                            if v.global {
+                                return Err(self.syntax_error(
+                                    &format!("Variable {} already defined", &longname),
+                                    start,
+                                ));
+                            }
+                        }
                         // Insert it into the global table
                         let var = Variable {
                             order: self
